@@ -716,6 +716,12 @@ def main(argv=None):
     seed = int(os.environ.get('VERIF_SEED', '20260923'))
     mod = importlib.import_module('harness.' + a.prop.lower())
     ctx = Ctx(a.prop, a.tier, seed)
+    # two runs of the same property (e.g. one on /repo and one on a scratch tree) share coq/Gen/Cxx*.v and
+    # the evidence files: never let them overlap
+    os.makedirs(BUILD, exist_ok=True)
+    _prop_lock = open(os.path.join(BUILD, f'.check-{a.prop}.lock'), 'w')
+    fcntl.flock(_prop_lock, fcntl.LOCK_EX)
+    ctx.t0 = time.time()
     if a.replay:
         with open(a.replay) as f:
             obj = json.load(f)
